@@ -366,6 +366,12 @@ func c13gRun(w *c13World, pl *c13gPlan, okLine, refusedLine string) string {
 		return "result-is-no-" + c13San(pl.cm.def.res) + " (" + c13San(err.Error()) + ") value=" + c13Short(c13Dump(got))
 	}
 	if !bytes.Equal(back.Bytes(), pl.payload) || c13Dump(pl.res) != c13Dump(got) {
+		if c13Dump(pl.res) == c13Dump(got) {
+			// the canonical text does not tell nil from a slice without elements: the difference is an optional
+			// vector / bytes field that came back absent for present-empty or the other way round
+			return "result-differs (an optional vector / bytes field is absent <-> present without elements) payload=" + c13ShowReq(pl.payload) +
+				" returned-value-serialises-to=" + c13ShowReq(back.Bytes()) + " value=" + c13Short(c13Dump(got))
+		}
 		return "result-differs sent=" + c13Short(c13Dump(pl.res)) + " returned=" + c13Short(c13Dump(got))
 	}
 	return okLine
